@@ -276,6 +276,18 @@ def attempts(rng, lang, factory, res, count=True):
                     f = attempt('dup-link', False, model, [x2, x], [y2])
                     if f:
                         return (f[0] + ':held-by-later-association', f[1])
+        # X = [a1, a2] -> [b1], Y = [a1] -> [b2]; a1 leaves X (X survives); Y's link a1 -> b2 must still be known
+        if a['leftMultiplicity']['max'] is None or a['leftMultiplicity']['max'] >= 2:
+            model, objs = fresh([rng.choice(lconc), rng.choice(lconc), rng.choice(rconc), rng.choice(rconc)])
+            a1, a2, b1, b2 = objs
+            if attempt('first-link', True, model, [a1, a2], [b1]) is None and attempt('first-link', True, model, [a1], [b2]) is None:
+                try:
+                    model.remove_asset_from_association(a1, model.associations[0])
+                except Exception as exc:
+                    return ('model.remove_asset_from_association:raised', 'raised %r' % (exc,))
+                f = attempt('dup-link', False, model, [a1], [b2])
+                if f:
+                    return (f[0] + ':after-partial-removal', f[1])
         # ... also after an unrelated removal that leaves another instance of the class
         model, objs = fresh([rng.choice(lconc), rng.choice(rconc), rng.choice(lconc), rng.choice(rconc)])
         x, y, x2, y2 = objs
